@@ -30,6 +30,8 @@ CSNAME = {2: "RGB", 6: "EXT_RGB", 7: "EXT_RGBX", 8: "EXT_BGR", 9: "EXT_BGRX", 10
           12: "EXT_RGBA", 13: "EXT_BGRA", 14: "EXT_ABGR", 15: "EXT_ARGB"}
 PADS = [0, 1, 5, 32]
 NARROW_565_OK = False
+WIDE = [65, 96, 129, 200, 300, 333]      # well above the 16/32/64-pixel loops of the SSE2/AVX2 colour and merged kernels
+FLAVOUR_ENV = {"sse2": {"JSIMD_FORCESSE2": "1"}}
 WIDTHS = [1, 2, 3, 4, 5, 7, 8, 9, 15, 16, 17, 23, 31, 32, 33, 40, 47, 48, 49]
 
 
@@ -60,6 +62,8 @@ def gen_kernel_group(rng, op, bits):
     mx = (1 << bits) - 1
     w = rng.choice(WIDTHS) if rng.chance(2, 3) else rng.range(1, 50)
     h = rng.range(1, 4)
+    if bits == 8 and op in ("c2y", "c2g", "y2c", "m1", "m2") and rng.chance(1, 5):
+        w, h = rng.choice(WIDE), rng.range(1, 2)
     style = rng.below(4)
     g = {"kind": "k-" + op, "op": op, "bits": bits, "w": w, "h": h, "lines": [], "meta": []}
     if op in ("c2y", "c2g", "c2r"):
@@ -174,6 +178,11 @@ def gen_api(rng, mode, thorough):
     if mode == "dec" and rng.chance(1, 6):
         w = rng.range(1, 5)         # narrow images: RGB565 rows shorter than the rows-per-call (F54 class)
     subsamp = rng.below(7)
+    wide = rng.chance(1, 4)
+    if wide:                        # several SIMD loop iterations + every tail length class
+        w, h = rng.choice(WIDE) + rng.choice([0, 0, 1, 7, 31]), rng.range(1, 6)
+        if rng.chance(2, 3):
+            subsamp = rng.choice([1, 2])    # 4:2:2 / 4:2:0: merged upsampling when TJPARAM_FASTUPSAMPLE is set
     qual = rng.choice([1, 25, 50, 75, 90, 95, 100, rng.range(1, 100)])
     cspace = -1
     if not lossless and rng.chance(3, 10):
@@ -190,7 +199,7 @@ def gen_api(rng, mode, thorough):
     if rng.chance(1, 5):
         flags |= 8
     if mode == "dec":
-        if rng.chance(1, 2):
+        if rng.chance(1, 2) or (wide and rng.chance(1, 2)):
             flags |= 16
         if rng.chance(1, 4):
             flags |= rng.range(1, 15) << 8
@@ -465,6 +474,8 @@ def run(ctx):
     drv = ctx.model_driver()
     flavours = ["simd", "plain"] if not ctx.thorough() else ["simd", "plain", "asan"]
     exes = {fl: ctx.cc("c10", ["c10.c"], fl, libs=("turbojpeg",)) for fl in flavours}
+    flavours = flavours[:1] + ["sse2"] + flavours[1:]     # same AVX2 build, dispatch limited to SSE2 (JSIMD_FORCESSE2=1)
+    exes["sse2"] = exes["simd"]
 
     groups = []
     if ctx.replay:
@@ -504,8 +515,9 @@ def run_groups(ctx, groups, exes, drv, flavours):
         return
     inp = ("\n".join(lines) + "\n").encode()
     outs = {}
-    for fl, exe in exes.items():
-        rc, out, err = sh2([exe], input=inp, timeout=3000)
+    for fl in flavours:
+        exe = exes[fl]
+        rc, out, err = sh2([exe], input=inp, timeout=3000, env=FLAVOUR_ENV.get(fl))
         ol = out.decode(errors="replace").split("\n")
         if ol and ol[-1] == "":
             ol.pop()
